@@ -16,6 +16,7 @@ import Pyiga.Proofs.TensorGreedy
 import Pyiga.Proofs.TensorGetitemT
 import Pyiga.Proofs.TensorTrunc
 import Pyiga.Proofs.TensorTruncate
+import Pyiga.Proofs.TensorGetitemAll
 import Mathlib.Tactic.NormNum
 import Mathlib.Tactic.FieldSimp
 
@@ -273,6 +274,62 @@ theorem faithful_truncate (Us : List (Mat α)) (X : Full α) (k : List Nat) (T' 
     (hw : (Ten.tucker Us X).WF) (h : (Ten.tucker Us X).truncate k = .ok T') :
     T'.WF ∧ T'.asarray = (Ten.tucker Us (X.mask k)).asarray := truncate_spec Us X k T' hw h
 
+/-- **`apply_tprod(ops, T)` for every tensor object** (ndarray, Canonical, Tucker, TensorSum term by term,
+TensorProd factor by factor, arbitrarily nested; at most one operator per axis): the multi-mode product of the
+expansion. -/
+theorem faithful_nway (T T' : Ten α) (ops : List (Option (Mat α))) (hw : T.WF) (hl : ops.length ≤ T.shape.length)
+    (h : T.nway false ops = .ok T') : T.asarray.nway ops = .ok T'.asarray ∧ T'.WF := by
+  obtain ⟨hw', hsh, he⟩ := nway_spec T T' ops hw hl h
+  refine ⟨?_, hw'⟩
+  simp only [Full.nway]
+  have : nwayShape ops T.asarray.shape = some T'.shape := hsh
+  rw [this]
+  show Except.ok (Full.ofFn T'.shape (fun I => nwayEntry ops I T.asarray.get)) = Except.ok (Full.ofFn T'.shape T'.entry)
+  rw [ofFn_congr _ _ _ (fun I hI => (he I hI).symm)]
+
+/-- **`pad(T, pad_width)` for every tensor object**: `np.pad` of the expansion -/
+theorem faithful_pad (T T' : Ten α) (pw : List (Option (Nat × Nat))) (hw : T.WF) (h : T.pad pw = .ok T') :
+    T.asarray.pad (padWidths pw) = .ok T'.asarray ∧ T'.WF := by
+  obtain ⟨hw', e⟩ := pad_spec T T' pw hw h
+  exact ⟨e, hw'⟩
+
+/-- **`T[I]` for ndarray, Canonical, Tucker and arbitrarily nested TensorSum objects** (linearity over the terms;
+scalars are added when every term returns a scalar): per-axis selection of the expansion with the int axes squeezed.
+TensorProd operands (index tuple split among the factors) are NOT covered, see `faithful_seq_full`. -/
+theorem faithful_getitem (T : Ten α) (hw : T.WF) (hn : T.NoProd) (I : List PyIndex) (r : Res α)
+    (h : T.getitem I = .ok r) :
+    ∃ nm, normalizeIndices I T.shape = .ok nm ∧ (T.asarray.take nm.idx).squeeze nm.singl = .ok r.asarray ∧
+      (∀ T', r = .t T' → T'.WF) := by
+  obtain ⟨nm, a, b, c⟩ := getitem_spec T I r hw hn h
+  exact ⟨nm, a, b, fun T' hT => (c T' hT).1⟩
+
+mutual
+/-- decidable form of `Ten.NoProd` -/
+def noProdB : Ten α → Bool
+  | .prod _ _ => false
+  | .sum _ Xs => noProdListB Xs
+  | _ => true
+def noProdListB : List (Ten α) → Bool
+  | [] => true
+  | X :: Xs => noProdB X && noProdListB Xs
+end
+
+mutual
+theorem noProdB_sound : ∀ (T : Ten α), noProdB T = true → T.NoProd
+  | .full _, _ => trivial
+  | .can _, _ => trivial
+  | .tucker _ _, _ => trivial
+  | .prod _ _, h => by simp [noProdB] at h
+  | .sum _ Xs, h => by
+    simp only [noProdB] at h
+    exact noProdListB_sound Xs h
+theorem noProdListB_sound : ∀ (Xs : List (Ten α)), noProdListB Xs = true → NoProdList Xs
+  | [], _ => trivial
+  | X :: Xs, h => by
+    simp only [noProdListB, Bool.and_eq_true] at h
+    exact ⟨noProdB_sound X h.1, noProdListB_sound Xs h.2⟩
+end
+
 /-! ## every operation sequence -/
 
 /-- operations of the arithmetic fragment; operands are positions in the environment, a
@@ -303,10 +360,8 @@ def stepT [DecidableEq α] (env : List (Ten α)) : SeqOp α → Option (Except E
       | _ => none
   | .nway a ops => do
       let A ← env[a]?
-      if leafB A then pure (A.nway false ops) else none
-  | .pad a pw => do
-      let A ← env[a]?
-      if leafB A then pure (A.pad pw) else none
+      if ops.length ≤ A.shape.length then pure (A.nway false ops) else none
+  | .pad a pw => (env[a]?).map (fun A => A.pad pw)
   | .t2c a => do
       let A ← env[a]?
       match A with
@@ -314,10 +369,7 @@ def stepT [DecidableEq α] (env : List (Ten α)) : SeqOp α → Option (Except E
       | _ => none
   | .get a I => do
       let A ← env[a]?
-      match A with
-      | .can Xs => pure ((Ten.getitem (.can Xs) I).map resToTen)
-      | .tucker Us X => pure ((Ten.getitem (.tucker Us X) I).map resToTen)
-      | _ => none
+      if noProdB A then pure ((A.getitem I).map resToTen) else none
   | .squeeze a => do
       let A ← env[a]?
       match A with
@@ -428,18 +480,14 @@ theorem step_faithful [DecidableEq α] (env : List (Ten α)) (hw : ∀ T ∈ env
     split at h
     · rename_i hl
       simp at h
-      obtain ⟨e, w, _⟩ := faithful_nway_leaf A T ops (hw A (List.mem_of_getElem? hA)) (leafB_isLeaf A hl) h
+      obtain ⟨e, w⟩ := faithful_nway A T ops (hw A (List.mem_of_getElem? hA)) hl h
       exact ⟨by simp [stepF, hA, e], w⟩
     · cases h
   | pad a pw =>
-    simp only [stepT, Option.bind_eq_bind, Option.bind_eq_some_iff] at h
+    simp only [stepT, Option.map_eq_some_iff] at h
     obtain ⟨A, hA, h⟩ := h
-    split at h
-    · rename_i hl
-      simp at h
-      obtain ⟨e, w, _⟩ := faithful_pad_leaf A T pw (hw A (List.mem_of_getElem? hA)) (leafB_isLeaf A hl) h
-      exact ⟨by simp [stepF, hA, e], w⟩
-    · cases h
+    obtain ⟨e, w⟩ := faithful_pad A T pw (hw A (List.mem_of_getElem? hA)) h
+    exact ⟨by simp [stepF, hA, e], w⟩
   | t2c a =>
     simp only [stepT, Option.bind_eq_bind, Option.bind_eq_some_iff] at h
     obtain ⟨A, hA, h⟩ := h
@@ -456,34 +504,25 @@ theorem step_faithful [DecidableEq α] (env : List (Ten α)) (hw : ∀ T ∈ env
     simp only [stepT, Option.bind_eq_bind, Option.bind_eq_some_iff] at h
     obtain ⟨A, hA, h⟩ := h
     have hwA := hw A (List.mem_of_getElem? hA)
-    have key : ∀ (hleaf : (∃ Xs, A = .can Xs) ∨ (∃ Us X, A = .tucker Us X)) (r : Res α),
-        A.getitem I = .ok r → T = resToTen r →
-        stepF (env.map Ten.asarray) (.get a I) = some (.ok T.asarray) ∧ T.WF := by
-      intro hleaf r hr hT
-      obtain ⟨nm, hnm, hsq, hwf⟩ := faithful_getitem_leaf A hwA I r hleaf hr
-      subst hT
-      refine ⟨?_, ?_⟩
-      · simp only [stepF, List.getElem?_map, hA, Option.map_some]
-        have : normalizeIndices I A.asarray.shape = .ok nm := hnm
-        rw [this]
-        simp only [bind, Except.bind, hsq, resToTen_asarray]
-      · cases r with
-        | t T' => exact (hwf T' rfl).1
-        | s a => trivial
-    cases A with
-    | can Xs =>
+    split at h
+    · rename_i hnp
       simp only [Option.pure_def, Option.some.injEq] at h
-      cases hr : Ten.getitem (.can Xs) I with
+      cases hr : A.getitem I with
       | error e => rw [hr] at h; cases h
-      | ok r => rw [hr] at h; injection h with h; exact key (Or.inl ⟨Xs, rfl⟩) r hr h.symm
-    | tucker Us X =>
-      simp only [Option.pure_def, Option.some.injEq] at h
-      cases hr : Ten.getitem (.tucker Us X) I with
-      | error e => rw [hr] at h; cases h
-      | ok r => rw [hr] at h; injection h with h; exact key (Or.inr ⟨Us, X, rfl⟩) r hr h.symm
-    | full _ => simp at h
-    | sum _ _ => simp at h
-    | prod _ _ => simp at h
+      | ok r =>
+        rw [hr] at h
+        injection h with h
+        subst h
+        obtain ⟨nm, hnm, hsq, hwf⟩ := faithful_getitem A hwA (noProdB_sound A hnp) I r hr
+        refine ⟨?_, ?_⟩
+        · simp only [stepF, List.getElem?_map, hA, Option.map_some]
+          have : normalizeIndices I A.asarray.shape = .ok nm := hnm
+          rw [this]
+          simp only [bind, Except.bind, hsq, resToTen_asarray]
+        · cases r with
+          | t T' => exact hwf T' rfl
+          | s a => trivial
+    · cases h
   | squeeze a =>
     simp only [stepT, Option.bind_eq_bind, Option.bind_eq_some_iff] at h
     obtain ⟨A, hA, h⟩ := h
@@ -532,9 +571,8 @@ theorem step_faithful [DecidableEq α] (env : List (Ten α)) (hw : ∀ T ∈ env
     | prod _ _ => simp at h
 
 /-- **faithfulness for every operation sequence** of the arithmetic fragment
-(`neg`, `+`, `-`, `TensorSum(...)`, `asarray`, Canonical→Tucker and Tucker→Canonical conversion on all five tensor (`getitem` with every index kind and `squeeze()` on Canonical/Tucker)
-classes arbitrarily nested, mixed formats, any order/shape/rank; `apply_tprod` and `pad` on
-ndarray/Canonical/Tucker operands): running the library's
+(`neg`, `+`, `-`, `TensorSum(...)`, `asarray`, Canonical→Tucker and Tucker→Canonical conversion on all five tensor (`getitem` with every index kind on every object without TensorProd nodes, `squeeze()` on Canonical/Tucker)
+classes arbitrarily nested, mixed formats, any order/shape/rank; `apply_tprod` and `pad` on every tensor object): running the library's
 operations on tensor objects and expanding at the end equals running numpy's operations on
 the expansions, for sequences of any length.  The remaining operations of the model
 (getitem/squeeze/truncate, apply_tprod/pad on TensorSum/TensorProd) are tied by the correspondence
